@@ -277,6 +277,105 @@ func c12(x *Ctx) {
 			"the registry key of "+T.Obj().Name()+" omits fields that the sampler reads: "+strings.Join(missing, ", ")+" – two definitions under one destination that differ only in these (e.g. two rules of a rules-based sampler) share one dynsampler and its statistics")
 	}
 	c.Min(r3, 5)
+
+	// ---- look-up, create and store are one critical section -----------------------------------------
+	const r4 = "C12.lookup-create-atomic"
+	regF := eng.FieldIs("sample", "SamplerFactory", "sharedDynsamplers")
+	isUnlock := func(in ssa.Instruction) bool {
+		cl, ok := in.(*ssa.Call) // a deferred unlock runs at return and splits nothing
+		if !ok {
+			return false
+		}
+		n := eng.CalleeName(cl)
+		return n == "(*sync.RWMutex).Unlock" || n == "(*sync.Mutex).Unlock" || n == "(*sync.RWMutex).RUnlock"
+	}
+	doneAtomic := map[string]bool{}
+	for _, f := range x.PkgFuncs("sample") {
+		var lookups, updates []ssa.Instruction
+		eng.Instrs(f, func(in ssa.Instruction) {
+			switch y := in.(type) {
+			case *ssa.Lookup:
+				if loadsField(y.X, regF) {
+					lookups = append(lookups, in)
+				}
+			case *ssa.MapUpdate:
+				if loadsField(y.Map, regF) {
+					updates = append(updates, in)
+				}
+			}
+		})
+		if len(lookups) == 0 || len(updates) == 0 || doneAtomic[BaseName(f)] {
+			continue // one instantiation of a generic function stands for all of them
+		}
+		doneAtomic[BaseName(f)] = true
+		c.Examined++
+		isUpd := func(in ssa.Instruction) bool {
+			for _, u := range updates {
+				if u == in {
+					return true
+				}
+			}
+			return false
+		}
+		split := false
+		for _, lk := range lookups {
+			r := eng.Explore(eng.Query{Fn: f, Start: lk, Classify: func(in ssa.Instruction, _ eng.Facts) eng.Event {
+				if isUnlock(in) || isUpd(in) {
+					return eng.EvSink
+				}
+				return eng.EvNone
+			}})
+			for _, h := range r.Hits {
+				if isUpd(h.Instr) && h.Before > 0 {
+					split = true
+				}
+			}
+		}
+		c.Decide(!split, r4, BaseName(f), x.PosOf(f.Pos()), "registry look-up and store happen in one critical section",
+			"the factory mutex is released between looking a key up in the shared registry and storing the newly created instance: two workers that miss at the same time each create and store an instance, and the one stored first keeps being used by its creator – workers no longer share rate-tracking state for that sampler definition")
+	}
+	c.Min(r4, 1)
+
+	// ---- reload: the registry is cleared before the workers are told to rebuild their samplers ----------
+	const r5 = "C12.clear-before-worker-reload"
+	if rc := x.Fn(r5, "collect", "InMemCollector", "reloadConfigs"); rc != nil {
+		workerReload := eng.FieldIs("collect", "CollectorWorker", "reload")
+		isSignal := func(in ssa.Instruction) bool {
+			switch y := in.(type) {
+			case *ssa.Send:
+				return loadsField(y.Chan, workerReload)
+			case *ssa.Select:
+				for _, st := range y.States {
+					if st.Dir == types.SendOnly && loadsField(st.Chan, workerReload) {
+						return true
+					}
+				}
+			}
+			return false
+		}
+		nSig := 0
+		eng.Instrs(rc, func(in ssa.Instruction) {
+			if isSignal(in) {
+				nSig++
+			}
+		})
+		r := eng.Explore(eng.Query{Fn: rc, Classify: func(in ssa.Instruction, _ eng.Facts) eng.Event {
+			if _, ok := eng.IsCall(in, "(*sample.SamplerFactory).ClearDynsamplers"); ok {
+				return eng.EvKill
+			}
+			if isSignal(in) {
+				return eng.EvSink
+			}
+			return eng.EvNone
+		}})
+		c.Examined += r.States
+		if nSig == 0 {
+			c.Undecided(r5, "reloadConfigs/signal", x.PosOf(rc.Pos()), "cannot find where the workers are told to drop their samplers")
+		} else {
+			c.Decide(len(r.Hits) == 0, r5, "reloadConfigs", x.PosOf(rc.Pos()), "ClearDynsamplers precedes every worker reload signal",
+				"a worker can be told to rebuild its samplers before the shared registry is cleared: it looks the old instance up again and keeps it while workers signalled later (or the next lookup) get a new one – one definition, two states, and the old one has been stopped")
+		}
+	}
 }
 
 func constArg(v ssa.Value) string {
